@@ -1206,6 +1206,7 @@ func (r *Resolver) addSubscription(triggerID uint64, add *addSubscription) error
 		r.registerSubscriptionLocked(trig, s)
 		// Execute the startup hooks in a goroutine to avoid holding the lock.
 		go func() {
+			defer verifYield("sub.hook.finished", s)
 			if err := r.executeStartupHooks(add, trig.updater); err != nil {
 				s.writeError(r.errorFormatter, add.ctx, err, add.resolve.Response)
 				_ = r.UnsubscribeSubscription(add.id)
@@ -1240,6 +1241,7 @@ func (r *Resolver) addSubscription(triggerID uint64, add *addSubscription) error
 	}
 
 	go func() {
+		defer verifYield("trigger.start.finished", trig.updater)
 		if r.options.Debug {
 			fmt.Printf("resolver:trigger:start:%d\n", triggerID)
 		}
@@ -1316,6 +1318,7 @@ func (r *Resolver) doneTriggerFromUpdater(triggerID uint64, updater *subscriptio
 		}
 	}
 	r.mu.Unlock()
+	verifYield("done.beforeClose", updater)
 	closeSubs(res.toClose)
 	if res.triggerCancel != nil {
 		res.triggerCancel()
@@ -1627,6 +1630,7 @@ func (r *Resolver) shutdownResolver() {
 	if r.options.Debug {
 		fmt.Printf("resolver:trigger:shutdown:done\n")
 	}
+	verifYield("resolver.shutdown.finished", r)
 }
 
 func (r *Resolver) heartbeatLoop() {
@@ -1674,6 +1678,7 @@ func (r *Resolver) UnsubscribeSubscription(id SubscriptionIdentifier) error {
 		}
 	}
 	r.mu.Unlock()
+	verifYield("unsub.beforeClose", id)
 	closeSubs(res.toClose)
 	if res.triggerCancel != nil {
 		res.triggerCancel()
